@@ -1748,3 +1748,64 @@ def pull_tests_through_conversion(fn, world, modname):
     out.body = body[:i] + new_rest
     ast.fix_missing_locations(out)
     return out
+
+
+def unbound_counted_poll_loops(fn, minimum):
+    """`for _ in range(N): BODY` followed directly by a `raise`, with the
+    loop variable unused, no break / else and a constant N >= minimum, is
+    read as `while True: BODY`: every run of the counted loop is a prefix of
+    a run of the unbounded one, and the raise behind it is reached only when
+    the unbounded loop would make more than N passes - which the rule that
+    asks for this (a bound on the passes below `minimum`) excludes.  Returns
+    fn or a rewritten copy."""
+    from .inline import acopy
+
+    def hit(stmts, k):
+        s_ = stmts[k]
+        if not (isinstance(s_, ast.For) and not s_.orelse and isinstance(
+                s_.target, ast.Name) and isinstance(s_.iter, ast.Call) and
+                ast.unparse(s_.iter.func) == "range" and len(
+                    s_.iter.args) == 1 and isinstance(
+                        s_.iter.args[0], ast.Constant) and type(
+                            s_.iter.args[0].value) is int and
+                s_.iter.args[0].value >= minimum):
+            return False
+        if k + 1 >= len(stmts) or not isinstance(stmts[k + 1], ast.Raise):
+            return False
+        v = s_.target.id
+        for b in s_.body:
+            for n in ast.walk(b):
+                if isinstance(n, ast.Name) and n.id == v:
+                    return False
+                if isinstance(n, ast.Break):
+                    return False
+        return True
+    found = [False]
+
+    def block(stmts):
+        out = []
+        k = 0
+        while k < len(stmts):
+            s_ = stmts[k]
+            if hit(stmts, k):
+                found[0] = True
+                out.append(ast.copy_location(ast.While(
+                    ast.Constant(True), s_.body, []), s_))
+                k += 2
+                continue
+            for fld in ("body", "orelse", "finalbody"):
+                b = getattr(s_, fld, None)
+                if isinstance(b, list) and b and isinstance(b[0], ast.stmt) \
+                        and not isinstance(s_, (ast.FunctionDef,
+                                                ast.AsyncFunctionDef,
+                                                ast.ClassDef)):
+                    setattr(s_, fld, block(b))
+            out.append(s_)
+            k += 1
+        return out
+    out = acopy(fn)
+    out.body = block(out.body)
+    if not found[0]:
+        return fn
+    ast.fix_missing_locations(out)
+    return out
